@@ -16,6 +16,10 @@ BANKS = "RCQM"
 EXC_CLASS = {"KeyError": 0, "ValueError": 1, "IndexError": 2, "RuntimeError": 3, "AssertionError": 4}
 
 
+GATE = "harness-gate-marker"
+YIELD_REG = (2, 15)          # Q15: operand of the gate used as yield point
+
+
 class Deferred(Exception):
     """raised by the harness's _do_wait when the scripted response was delivered and the
     awaited array is still undefined: the executor deferred the response"""
@@ -64,6 +68,11 @@ def make_classes(m):
             # yield point of the back end (the base class recurses forever)
             pass
 
+        def _do_single_qubit_instr(self, instr, subroutine_id, address):
+            # yield point inside a gate: the subroutine is suspended here while the harness
+            # runs other subroutines (back ends yield to their event loop in gates)
+            yield GATE
+
         def _do_wait(self):
             if self.script:
                 self._handle_epr_response(self.script.pop(0))
@@ -104,6 +113,10 @@ class World:
         self.reserved = set()       # harness's own record: (nd, p) handed out by Reserve, not delivered yet
         self.registered = set()     # harness's own record of the lifecycle: (nd, app) currently registered
         self.msg_id = 0
+        self.live = {}              # label -> dict(gen, nd, app, blocks, next): suspended interleaved subroutines
+        self.recent_free = {}       # nd -> physical ids released lately (generation bias only)
+        self.last_model_ops = []
+        self.anomalies = []
 
     def ctrl(self, nd):
         if nd not in self.ctrls:
@@ -122,30 +135,87 @@ class World:
         sub = self.m["parsing"].parse_text_subroutine(f"# NETQASM 1.0\n# APPID {app}\n" + body)
         self._send(nd, self.m["messages"].SubroutineMessage(sub))
 
+    @staticmethod
+    def block_text(op):
+        kind = op[0]
+        if kind == "QAlloc":
+            return f"set Q0 {op[3]}\nqalloc Q0\n"
+        if kind == "QFree":
+            return f"set Q0 {op[3]}\nqfree Q0\n"
+        if kind == "SetReg":
+            return f"set {reg_txt(op[3])} {op[4]}\n"
+        if kind == "NewArr":
+            return f"set R0 {op[4]}\narray R0 @{op[3]}\n"
+        if kind == "Store":
+            return f"set R0 {op[5]}\nset R1 {op[4]}\nstore R0 @{op[3]}[R1]\n"
+        if kind == "RetReg":
+            return f"ret_reg {reg_txt(op[3])}\n"
+        if kind == "RetArr":
+            return f"ret_arr @{op[3]}\n"
+        raise AssertionError(kind)
+
+    def _note_free(self, nd, before_used):
+        ex = self.ctrl(nd)._executor
+        gone = [p for p in before_used if p not in ex._used_physical_qubit_addresses]
+        if gone:
+            self.recent_free.setdefault(nd, [])
+            self.recent_free[nd] = (self.recent_free[nd] + gone)[-4:]
+
+    def _advance(self, label):
+        """run the suspended subroutine to its next yield point (inside a gate) or to its end"""
+        sub = self.live[label]
+        j = sub["next"]
+        blocks = sub["blocks"]
+        setq = ("SetReg", sub["nd"], sub["app"], YIELD_REG, 0)
+        sub["next"] = j + 1
+        if j >= len(blocks):
+            # the program has len(blocks) - 1 gates: it cannot be suspended a len(blocks)-th time
+            self.last_model_ops = []
+            self.anomalies.append(f"subroutine {label} of application {(sub['nd'], sub['app'])} with {len(blocks)} blocks "
+                                  f"was still suspended after {j} resumptions: it is not executing its own program")
+            blocks = blocks + [None] * (j + 1)
+        else:
+            self.last_model_ops = [blocks[j]] + ([setq] if j < len(blocks) - 1 else [])
+        try:
+            while True:
+                if next(sub["gen"]) == GATE:
+                    return
+        except StopIteration:
+            del self.live[label]
+        except BaseException:
+            del self.live[label]
+            self.last_model_ops = [blocks[j]] if blocks[j] is not None else []
+            raise
+
     def apply(self, op):
-        """returns outcome code: 0 done, 1 deferred, 10+class fault"""
+        """returns outcome code: 0 done, 1 deferred, 10+class fault.  For Start / Step the model
+        operations that ran between the two yield points are left in self.last_model_ops."""
         M = self.m["messages"]
         kind = op[0]
         ex = self.ctrl(op[1])._executor
+        used_before = set(ex._used_physical_qubit_addresses)
+        self.last_model_ops = [op]
         try:
             if kind == "Init":
                 self._send(op[1], M.InitNewAppMessage(op[2], op[3]))
             elif kind == "Stop":
                 self._send(op[1], M.StopAppMessage(op[2]))
-            elif kind == "QAlloc":
-                self._sub(op[1], op[2], f"set Q0 {op[3]}\nqalloc Q0\n")
-            elif kind == "QFree":
-                self._sub(op[1], op[2], f"set Q0 {op[3]}\nqfree Q0\n")
-            elif kind == "SetReg":
-                self._sub(op[1], op[2], f"set {reg_txt(op[3])} {op[4]}\n")
-            elif kind == "NewArr":
-                self._sub(op[1], op[2], f"set R0 {op[4]}\narray R0 @{op[3]}\n")
-            elif kind == "Store":
-                self._sub(op[1], op[2], f"set R0 {op[5]}\nset R1 {op[4]}\nstore R0 @{op[3]}[R1]\n")
-            elif kind == "RetReg":
-                self._sub(op[1], op[2], f"ret_reg {reg_txt(op[3])}\n")
-            elif kind == "RetArr":
-                self._sub(op[1], op[2], f"ret_arr @{op[3]}\n")
+            elif kind in ("QAlloc", "QFree", "SetReg", "NewArr", "Store", "RetReg", "RetArr"):
+                self._sub(op[1], op[2], self.block_text(op))
+            elif kind == "Start":
+                _, nd, app, label, blocks = op
+                text = ""
+                for i, b in enumerate(blocks):
+                    text += self.block_text(b)
+                    if i < len(blocks) - 1:
+                        text += f"set {reg_txt(YIELD_REG)} 0\nh {reg_txt(YIELD_REG)}\n"
+                sub = self.m["parsing"].parse_text_subroutine(f"# NETQASM 1.0\n# APPID {app}\n" + text)
+                self.msg_id += 1
+                g = self.ctrl(nd).handle_netqasm_message(self.msg_id, M.SubroutineMessage(sub))
+                self.live[label] = dict(gen=g, nd=nd, app=app, blocks=list(blocks), next=0)
+                self._advance(label)
+            elif kind == "Step":
+                self._advance(op[3])
             elif kind == "Reserve":
                 p = ex._get_unused_physical_qubit()
                 self.reserved.add((op[1], p))
@@ -158,25 +228,34 @@ class World:
                 assert info[3] == 1  # we are the receiver
                 ex.script = [resp]
                 remote, sock = info[6], info[5]
+                delivered = False
                 try:
                     self._sub(nd, app,
                               f"set R0 1\narray R0 @{qa}\nset R0 {v}\nset R4 0\nstore R0 @{qa}[R4]\nset R0 10\narray R0 @{ra}\n"
                               f"set R0 {remote}\nset R1 {sock}\nset R2 {qa}\nset R3 {ra}\n"
                               f"recv_epr R0 R1 R2 R3\nset R4 0\nset R5 10\nwait_all @{ra}[R4:R5]\n")
+                    delivered = True
                     self.reserved.discard((nd, info[2]))
                 finally:
                     # C13 does not model outstanding requests (C12 does): the undelivered
                     # response and its request are withdrawn by the harness
                     ex.script = None
+                    pending = list(ex._pending_epr_responses)
                     ex._pending_epr_responses.clear()
                     ex._epr_recv_requests.clear()
                     ex._epr_create_requests.clear()
+                    if not delivered and pending and info[2] in ex._used_physical_qubit_addresses \
+                            and not any(info[2] in um for um in ex._qubit_unit_modules.values()):
+                        # marked in use by the failed attempt, not mapped: still in flight
+                        self.reserved.add((nd, info[2]))
             else:
                 raise AssertionError(kind)
         except Deferred:
             return 1
         except Exception as e:  # noqa
+            self._note_free(op[1], used_before)
             return 10 + EXC_CLASS.get(type(e).__name__, 9)
+        self._note_free(op[1], used_before)
         if kind == "Init":
             self.registered.add((op[1], op[2]))
         elif kind == "Stop":
@@ -226,7 +305,8 @@ class World:
     # ------------------------------------------------------------------ the property, checked directly
     def oracle(self, before, op, out, after, contract_ok=True):
         """before/after: observe() results around op.  Returns a list of failure strings."""
-        bad = []
+        bad = list(self.anomalies)
+        self.anomalies = []
         img = after["image"]
         if len(img) != len(set(img)):
             dup = sorted(x for x in set(img) if img.count(x) > 1)
@@ -292,6 +372,8 @@ def coq_arrs(d):
 
 
 def coq_obs(out, ob):
+    if ob is None:
+        return "(mkObs (-1) [] [] [] [])"
     apps = lst(f"({coq_pair(k)}, ({coq_arr(a['um'])}, {coq_regs(a['regs'])}, {coq_arrs(a['arrs'])}, "
                f"({coq_regs(a['shr'])}, {coq_arrs(a['sha'])})))" for k, a in sorted(ob["apps"].items()))
     return (f"(mkObs {z(out)} {apps} {lst(coq_pair(p) for p in ob['used'])} "
